@@ -197,10 +197,11 @@ Move ==
    /\ UNCHANGED <<tid, S, step, npid, born, hist, closed, catch>>
 
 Killed(p) == \E k \in 1..Len(S.kill) : S.kill[k][1] = step /\ S.kill[k][2] = p
+KilledFarm(f) == \E k \in 1..Len(S.killfarm) : S.killfarm[k][1] = step /\ S.killfarm[k][2] = f       \* kills addressed by release row
 Frozen(p) == \E k \in 1..Len(S.freeze) : S.freeze[k][1] = step /\ S.freeze[k][2] = p
 Ibm == /\ Is("ibm")
        /\ LET pre == AliveParts(Ev.pre)   post == AliveParts(Ev.post)
-              exp == SelectSeq([i \in 1..Len(parts) |-> [parts[i] EXCEPT !.age = @ + 1, !.alive = ~Killed(parts[i].pid), !.active = @ /\ ~Frozen(parts[i].pid)]], LAMBDA r : r.alive)
+              exp == SelectSeq([i \in 1..Len(parts) |-> [parts[i] EXCEPT !.age = @ + 1, !.alive = ~Killed(parts[i].pid) /\ ~KilledFarm(parts[i].farm), !.active = @ /\ ~Frozen(parts[i].pid)]], LAMBDA r : r.alive)
           IN /\ Mark(All(<<Check("ibm.pc", pc = "ibm"),
                            Check("ibm.step", Ev.step = step),
                            Check("ibm.module_given_by_path_runs", Ev.token = S.token),
